@@ -164,6 +164,8 @@ PYVEC_TIE = {
  "C06": "_nanmean_weighted and _nanstd_weighted (the statistics the rejection bounds and the stopping rule are computed from)",
  "C11": "_nanmean_weighted and _nanstd_weighted (both denominators: nist and cheng)",
 }
+PYVEC_TIE["C05"] += " and the accessor layer HvsrTraditional.mean_fn_frequency/std_fn_frequency/mean_fn_amplitude/std_fn_amplitude (method, @property and imported estimator inlined; equal to HvTrad.meanFn/stdFn/meanAmp/stdAmp on every state)"
+
 for pid, what in PYVEC_TIE.items():
     c = CLAIMED[pid]
     c["text"] += (" Array-level source translator: tools/py2lean_vec.py symbolically executes the whole functions " + what + " (arrays as List (Option Real), NaN = none; helper calls inlined) "
@@ -172,6 +174,10 @@ for pid, what in PYVEC_TIE.items():
                   "the same arrays on every run.")
     if "py2lean_vec" not in c["technique"]:
         c["technique"] += " + array-level source translator (py2lean_vec) with equality theorems"
+CLAIMED["C14"]["text"] += (" Array-level source translator: tools/py2lean_vec.py symbolically executes hvsr_spatial._statistics (two loops over zip(values, norm_weights) as left folds with the code's accumulators, "
+                           "the surviving loop variable, np.sqrt with NaN for a negative radicand) into Generated/PyVec.lean on every run; Bridge/PyVecSpatial.lean proves for every matrix of realisations and every "
+                           "weight vector that the translated pair is defined exactly when the model's `statistics` is and then equals it; the real function and the translation (at Float) are executed on the same inputs on every run.")
+CLAIMED["C14"]["technique"] += " + array-level source translator (py2lean_vec) with equality theorem for _statistics"
 CLAIMED["C04"]["note"] = ("Trusted: np.percentile ('linear' method, modelled by its contract: monotone in p and bounded by min/max are proved for the model, "
                           "Props/C04.lean percentile_mono/percentile_bounds, and tested on the implementation); rotation invariance and 180-degree periodicity are composed through the whole chain (Props/C04Rot.lean).")
 CLAIMED["C06"]["note"] = ("Trusted: float rounding at zero guards / convergence limits / bounds (such runs are detected from the implementation's own trace, skipped and counted). Order independence "
